@@ -52,7 +52,7 @@ CHECKS = {
              'content. Theorems: a READER of the DDL written in Lean (PyDBMLModel/SqlRead.lean, text only) provably inverts the renderer '
              'model - read_render_column / read_render_table / read_render_script (every column in order with name, type, the four flags '
              'exactly when set, DEFAULT whenever set incl. 0/false/empty, column-level vs ONE table-level PRIMARY KEY, qualified name, '
-             'each table once, nothing else; class: tables without notes/comments/indexes), read_render_enum, read_render_index (CREATE INDEX statements over column subjects), read_render_script_all (whole '
+             'each table once, nothing else; class: tables without notes/comments/indexes), read_render_enum, read_render_index (CREATE INDEX statements over column subjects), read_render_script_ix / read_render_script_all (whole '
              'scripts of enums + tables + standalone references read back statement by statement) and same_ddl_same_content (the DDL '
              'determines the content); the same reader, compiled into the driver, is run on the .sql of the real code. Structural '
              'theorems script_structure, column_pk_component, default_component, sql_column_ignores_props.',
